@@ -123,14 +123,7 @@ type run struct {
 	sawTaskPending bool // a consumer was blocked in a call while a task above it had not finished
 	bubbleDeadlock string
 
-	knownReadAtEOF bool     // KNOWN_FINDINGS.txt lists keyReadAtEOF: tolerate and count
-	excluded       []string // tolerated occurrences of listed findings
 }
-
-// keyReadAtEOF: casBufferWithBackgroundTask.ReadAt returns the base buffer's
-// io.EOF (short read at the end of the object) without consulting the
-// task's error.
-const keyReadAtEOF = "readat-eof-hides-task-error"
 
 func newRun(p *program, freeRun bool) *run {
 	r := &run{
@@ -636,11 +629,7 @@ func (r *run) checkConsumer(who string, n *node, s *script, res *result) string 
 			if res.err == nil {
 				return fail("returned n=%d without error although a task above failed (must report one of: %s)", res.n, classes(e.accept))
 			}
-			if r.knownReadAtEOF {
-				r.excluded = append(r.excluded, keyReadAtEOF)
-			} else {
-				return fail("returned n=%d with io.EOF although a task above failed: the task's error is lost (must report one of: %s)", res.n, classes(e.accept))
-			}
+			return fail("returned n=%d with io.EOF although a task above failed: the task's error is lost (must report one of: %s)", res.n, classes(e.accept))
 		}
 		if res.n != len(want) || string(res.data) != string(want) {
 			return fail("returned n=%d data=%q, the object has %q there", res.n, res.data, want)
